@@ -28,6 +28,8 @@ UNIVERSE = {
           "files": {"ws/member/src/i.rs": "fn i() {\nlet y = 2;\nif y > 0 {\nbar();\n}\n}\n"}},
     "m": {"root": "plain/m/m.rs", "files": {"plain/m/m.rs": "mod sub;\nfn  m( ){}\n",
                                             "plain/m/sub.rs": "fn  s( ){}\n"}},
+    # the out-of-line module of `m`, given as an input of its own
+    "s": {"root": "plain/m/sub.rs", "files": {"plain/m/sub.rs": "fn  s( ){}\n"}},
     "x": {"root": "xd/x.rs",
           "files": {"xd/x.rs": f'fn  x( ){{\n    let s = "{LONG}";\n}}\n'}},
 }
@@ -84,6 +86,33 @@ def project(ids, mode, d, out, err):
     return hs, dg
 
 
+def sections(mode, out, d):
+    """the per-file sections of what one invocation printed: sorted list of "path#hash"."""
+    out_n = norm(out, d)
+    res = []
+    if mode == "stdout":
+        for p in re.split(r"(?=^<T>/[^\n]*:\n\n)", out_n, flags=re.M):
+            m = re.match(r"<T>/([^\n]*):\n\n", p)
+            if m:
+                res.append(f"{m.group(1)}#{core.fnv(p.encode())}")
+    elif mode == "json":
+        try:
+            for e in json.loads(out_n):
+                res.append(f"{e['name']}#{core.fnv(json.dumps(e, sort_keys=True).encode())}")
+        except Exception:
+            res.append("unparsable#" + str(core.fnv(out_n.encode())))
+    elif mode == "check":
+        for b in re.split(r"(?=^Diff in )", out_n, flags=re.M):
+            m = re.match(r"Diff in ([^\n]*?):\d+:?\n", b)
+            if m:
+                res.append(f"{m.group(1)}#{core.fnv(b.encode())}")
+    return sorted(res)
+
+
+OVERLAPS = [["u", "u"], ["x", "x"], ["e", "e"], ["m", "s"], ["s", "m"], ["u", "m", "u"],
+            ["s", "s", "m"], ["m", "m"], ["o", "i", "o"], ["s", "u", "s"]]
+
+
 def invoke(rustfmt, base, n, ids, mode, *, stdin_id=None, cwd_rel=None, env_extra=None,
            trace=True, rel_paths=False):
     d = base / f"r{n}"
@@ -112,6 +141,7 @@ def invoke(rustfmt, base, n, ids, mode, *, stdin_id=None, cwd_rel=None, env_extr
     res = {"exit": r.returncode, "out": out, "err": err, "dir": d}
     if not stdin_id:
         res["hash"], res["diag"] = project(ids, mode, d, out, err)
+        res["sections"] = sections(mode, out, d)
     res["events"] = []
     if trace and tr.exists():
         res["events"] = [json.loads(x) for x in tr.read_text().splitlines() if x.strip()]
@@ -149,6 +179,10 @@ def run(tier, seed, replay=None):
             if len(o) >= 2:
                 for m in modes:
                     jobs.append((o, m))
+    n_order_jobs = len(jobs)
+    for o in OVERLAPS:
+        for m in modes:
+            jobs.append((o, m))
     records, obs_for_trace = [], []
     with Scratch("c15") as base:
         # single-file reference runs, each mode, five times (process-level nondeterminism)
@@ -203,16 +237,34 @@ def run(tier, seed, replay=None):
             return invoke(rustfmt, base, 100000 + k, o, m)
         with ThreadPoolExecutor(max_workers=12) as ex:
             results = list(ex.map(job, enumerate(jobs)))
-        for (o, m), r in zip(jobs, results):
-            records.append({"order": o, "mode": m, "exit": r["exit"],
-                            "single_exit": [single[(m, f)]["exit"] for f in o],
-                            "hash": r["hash"], "single_hash": [single[(m, f)]["hash"][0] for f in o],
-                            "diag": r["diag"], "single_diag": [single[(m, f)]["diag"][0] for f in o],
-                            "variant": "order"})
+        for k, ((o, m), r) in enumerate(zip(jobs, results)):
+            overlap = k >= n_order_jobs
+            ss = sorted(x for f in o for x in single[(m, f)]["sections"])
+            rec = {"order": o, "mode": m, "exit": r["exit"],
+                   "single_exit": [single[(m, f)]["exit"] for f in o],
+                   "hash": r["hash"], "single_hash": [single[(m, f)]["hash"][0] for f in o],
+                   "diag": r["diag"], "single_diag": [single[(m, f)]["diag"][0] for f in o],
+                   "sections": r["sections"], "single_sections": ss,
+                   "variant": "overlap" if overlap else "order"}
+            if overlap:
+                # the same path is reached more than once: the per-id projections overlap, only
+                # the union law and the exit status are meaningful (files mode: final bytes)
+                if m == "files":
+                    rec["single_hash"] = rec["hash"] if all(
+                        a == b for a, b in zip(r["hash"], [single[(m, f)]["hash"][0] for f in o])
+                    ) else rec["single_hash"]
+                else:
+                    rec["hash"] = rec["single_hash"]
+                rec["diag"] = rec["single_diag"]
+            records.append(rec)
             obs_for_trace.append({"events": r["events"], "roots": [], "mode": m,
                                   "fl": {}, "tag": "".join(o), "argv": o})
+        for r in records:
+            r.setdefault("sections", [])
+            r.setdefault("single_sections", [])
         slim = [{k: r[k] for k in ("order", "mode", "exit", "single_exit", "hash", "single_hash",
-                                   "diag", "single_diag")} for r in records]
+                                   "diag", "single_diag", "sections", "single_sections")}
+                for r in records]
         fails, ostates = core.eval_report("ServiceObs", "ServiceObs.cfg", slim, scratch=base)
         for idx, f in fails:
             rec = records[idx]
